@@ -57,7 +57,7 @@ func body(r *vf.Run) {
 		histChild(r)
 		return
 	}
-	n := r.N(16, 100)
+	n := r.N(16, 150)
 	workers := 4
 	if r.Thorough() {
 		workers = 6
